@@ -3,27 +3,29 @@
 EXTENDS RayCast, JudgeBase
 VARIABLE i
 
+\* one line (direction j) of a record: the hit set and its representatives are computed once and shared by the clauses
+ClauseAt(name, j, P) == IF P THEN TRUE ELSE PrintT(<<"REJECT", i, name>>) /\ PrintT(<<"DETAIL", i, name, j>>)
 JDir(r, j) ==
     LET v == r.pts o == r.o d == r.dirs[j] c == r.out.c[j]
-        nd == ISqrt(d[1] * d[1] + d[2] * d[2]) IN
-    /\ IntersectionsOK(v, o, d, c.ints, 1)
-    /\ IntersectionsOK(v, o, d, c.cints, 1)
-    /\ SpanningOK(v, o, d, c.span) /\ SpanningOK(v, o, d, c.cspan)
-    /\ MaxIntersectionOK(v, o, d, c.max)
-    /\ FarthestOK(v, o, d, c.far)
-    \* normal line of a surface point: same crossings, parameters measured in units of length (|d| integral only)
-    \* (the direction is normalised, hence inexact: the count is demanded only where every vertex on the
-    \*  line is a proper crossing - touches, open ends and edges along the line are free)
-    /\ RobustCount(v, o, d) => Len(c.sints) = NumCross(v, o, d)
-    /\ (nd > 0 /\ RobustCount(v, o, d)) => \A a \in 1..Len(c.sints) : Len(c.sints) = Len(c.ints) /\ AbsV(c.sints[a] - nd * c.ints[a][1]) <= 2 * nd + 2
+        nd == ISqrt(d[1] * d[1] + d[2] * d[2])
+        H == HitEdges(v, o, d)
+        R == RepsIn(H, v, o, d)
+        robust == RobustCount(v, o, d) IN
+    /\ ClauseAt("C06.intersections", j, IntersectionsOKh(H, R, v, o, d, c.ints, 1) /\ IntersectionsOKh(H, R, v, o, d, c.cints, 1))
+    /\ ClauseAt("C06.spanning_ray", j, SpanningOKh(R, v, o, d, c.span) /\ SpanningOKh(R, v, o, d, c.cspan))
+    /\ ClauseAt("C06.derived_answers", j,
+          /\ MaxIntersectionOKh(R, v, o, d, c.max)
+          /\ FarthestOK(v, o, d, c.far)
+          \* normal line of a surface point: same crossings, parameters measured in units of length (|d| integral only)
+          \* (the direction is normalised, hence inexact: the count is demanded only where every vertex on the
+          \*  line is a proper crossing - touches, open ends and edges along the line are free)
+          /\ robust => Len(c.sints) = Cardinality(R)
+          /\ (nd > 0 /\ robust) => \A a \in 1..Len(c.sints) : Len(c.sints) = Len(c.ints) /\ AbsV(c.sints[a] - nd * c.ints[a][1]) <= 2 * nd + 2)
 
 JCast(r) ==
     /\ Clause(i, "C06.finite", r.out.finite)
     /\ Clause(i, "C06.shape", Len(r.out.c) = Len(r.dirs))
-    /\ Len(r.out.c) = Len(r.dirs) =>
-        /\ ClauseAll(i, "C06.intersections", 1..Len(r.dirs), LAMBDA j : IntersectionsOK(r.pts, r.o, r.dirs[j], r.out.c[j].ints, 1) /\ IntersectionsOK(r.pts, r.o, r.dirs[j], r.out.c[j].cints, 1))
-        /\ ClauseAll(i, "C06.spanning_ray", 1..Len(r.dirs), LAMBDA j : SpanningOK(r.pts, r.o, r.dirs[j], r.out.c[j].span) /\ SpanningOK(r.pts, r.o, r.dirs[j], r.out.c[j].cspan))
-        /\ ClauseAll(i, "C06.derived_answers", 1..Len(r.dirs), LAMBDA j : JDir(r, j))
+    /\ Len(r.out.c) = Len(r.dirs) => \A j \in 1..Len(r.dirs) : JDir(r, j)
 
 Judge(r) ==
     /\ Sane(i, r)
